@@ -411,6 +411,12 @@ def run(prog, chk):
         chk.bad("C10.d", f, "fastsignal-wait", "%s:%s" % (f.file, f.line), "FastSignal::wait must test _state with Atomic::load and otherwise block in Signal::wait")
 
     condition_wait_loops(prog, chk, "C10.m")
+    # the completion handshake stands on Signal (src/Signal.cpp is anchored here as well): a flag written outside the critical section
+    # can be missed by a joiner that has tested it but not yet blocked - join() then never returns.  Decided by C11's lock-state rules.
+    from . import c11 as _c11
+    from .server_common import Only
+    _c11.run(prog, Only(chk, "C11.b", "C10.n"))
+    _c11.run(prog, Only(chk, "C11.d", "C10.o"))
     # ------------------------------------------------------------------ C10.e
     f = fn1(prog, lambda f: f.gname == PRIV + "ThreadPool::ThreadContext::proc", "ThreadContext::proc")[0]
     where = "%s:%s" % (f.file, f.line)
